@@ -183,10 +183,10 @@ def rand_script(rng, sc, ci, kind, fsm, allow_hold, allow_nested, maxlen=4):
             data = bytes(rng.choice(b"abc,=+\"xyz\r") for _ in range(k))
         act = None
         if allow_nested and rng.random() < 0.2:
-            tgt = rng.randrange(len(sc.cmds()))
+            tgt = rng.randrange(len(sc.allcmds()))
             act = rng.choice(["trig:%d:r" % tgt, "trig:%d:t" % tgt, "hexit:0", "hexit:-1", "q:busy", "q:hold", "q:full"])
         if rng.random() < 0.15:
-            c = sc.cmds()[ci]
+            c = sc.allcmds()[ci]
             if c.vars:
                 vi = rng.randrange(len(c.vars))
                 a = "setmem:%d:%d:%s" % (ci, vi, hx(rand_mem(rng, c.vars[vi].type, c.vars[vi].size)))
@@ -231,7 +231,12 @@ def gen_general(rng, sid, qcap=None, max_cmds=6, lines=3, grain="step", mutex=No
     for gi in range(len(groups)):
         if rng.random() < 0.6:
             sc.group_names[gi] = rng.choice(["g%d" % gi, "g0", ""])
-    allc = sc.cmds()
+    if events and rng.random() < 0.25:
+        # command descriptors that are not registered: usable with the trigger functions only (names may collide with the table's)
+        for _ in range(rng.choice([1, 1, 2])):
+            sc.xcmds.append(rand_cmd(rng, rng.choice(names + ["+X", "+EXT", "Q"])))
+    tabc = sc.cmds()
+    allc = sc.allcmds()
     nested_ok = not mutex
     for ci, c in enumerate(allc):
         for kind, has in (("w", c.hw), ("r", c.hr), ("x", c.hx), ("t", c.ht)):
@@ -276,7 +281,7 @@ def gen_general(rng, sid, qcap=None, max_cmds=6, lines=3, grain="step", mutex=No
                 sc.qproc(rng.choice([0, 1]))
             elif r < 0.75:
                 # the lookups by name (exact, case-sensitive)
-                c = rng.choice(allc)
+                c = rng.choice(tabc)
                 nm = c.name if rng.random() < 0.6 else rng.choice([c.name.swapcase(), c.name[:-1], c.name + "X", ""])
                 k = rng.random()
                 if k < 0.5:
@@ -284,7 +289,7 @@ def gen_general(rng, sid, qcap=None, max_cmds=6, lines=3, grain="step", mutex=No
                 elif k < 0.7:
                     sc.op("sgrp %s" % hx(rng.choice(["g0", "g1", "G0", "", "zz"])))
                 else:
-                    ci = rng.randrange(len(allc))
+                    ci = rng.randrange(len(tabc))
                     sc.op("svar %d %s" % (ci, hx(rng.choice(["x", "val", "", "n1", "X", "nope"]))))
         sc.settle(700)
         if holds:
@@ -293,7 +298,7 @@ def gen_general(rng, sid, qcap=None, max_cmds=6, lines=3, grain="step", mutex=No
             sc.settle(4000)
         if flags and rng.random() < 0.3:
             if rng.random() < 0.7:
-                sc.flag_cmd(rng.randrange(len(allc)), rng.choice(["disable", "disable", "only_test"]), rng.random() < 0.5)
+                sc.flag_cmd(rng.randrange(len(tabc)), rng.choice(["disable", "disable", "only_test"]), rng.random() < 0.5)
             else:
                 sc.flag_group(rng.randrange(len(sc.groups)), rng.random() < 0.5)
         if rng.random() < 0.2:
